@@ -10,6 +10,7 @@ package invocation
 import (
 	"errors"
 	"fmt"
+	"slices"
 	"time"
 
 	"github.com/ipfs/go-cid"
@@ -245,6 +246,13 @@ func (t *Token) validate() error {
 	}
 	if err := t.arguments.Validate(); err != nil {
 		errs = errors.Join(errs, fmt.Errorf("invalid arguments: %w", err))
+	}
+	// undefined CIDs can't be encoded
+	if slices.ContainsFunc(t.proof, func(prf cid.Cid) bool { return !prf.Defined() }) {
+		errs = errors.Join(errs, fmt.Errorf("undefined CID in the proofs"))
+	}
+	if t.cause != nil && !t.cause.Defined() {
+		errs = errors.Join(errs, fmt.Errorf("undefined CID as cause"))
 	}
 
 	return errs
